@@ -81,7 +81,7 @@ func (h *Heap) read(d *Decls, key string, vs Sort, ref *Term) *Term {
 				res = Ite(c, e.val, res)
 			}
 		}
-		if ref.S == "0" {
+		if ref.S == "0" || d.isOld(ref) {
 			return res
 		}
 		if h.freshFrom != nil {
